@@ -1588,6 +1588,9 @@ func (interp *Interpreter) cfg(root *node, sc *scope, importPath, pkgName string
 			}
 			n.start = init.start
 			body.start = body.child[0] // loopvar
+			if l := body.lastChild(); l.kind == identExpr && l.tnext == nil {
+				l.tnext = body // The body is empty: the loopvar goes to the end of body.
+			}
 			if cond.rval.IsValid() {
 				// Condition is known at compile time, bypass test.
 				if cond.rval.Bool() {
@@ -1825,6 +1828,9 @@ func (interp *Interpreter) cfg(root *node, sc *scope, importPath, pkgName string
 				n.tnext = body.start       // then go to range body
 				body.tnext = n             // then body go to range function (loop)
 				k.gen = empty              // init filled later by generator
+				if l := body.lastChild(); l.kind == identExpr && l.tnext == nil {
+					l.tnext = body // The body is empty: the loopvars go to the end of body.
+				}
 			}
 
 		case returnStmt:
